@@ -463,6 +463,25 @@ Section Generic.
     rewrite full_mat_cell; auto. fold R. rewrite div_mod_cell; auto.
   Qed.
 
+  Lemma sc_get_full_out pssm s maxi i :
+    0 < C -> seq_R (length s) * C <= i ->
+    is_panic (sc_get (mkScores (full_mat pssm s) maxi) i) = true.
+  Proof.
+    intros HC Hi. unfold sc_get. cbn [sc_mat]. rewrite full_mat_length.
+    set (R := seq_R (length s)) in *.
+    destruct (Nat.eqb_spec R 0) as [E|E]; [reflexivity|].
+    assert (Hm : i mod R < R) by (apply Nat.mod_upper_bound; lia).
+    assert (Hd : C <= i / R) by (apply Nat.div_le_lower_bound; lia).
+    rewrite (nth_error_nth' _ []) by (rewrite full_mat_length; auto).
+    assert (Hrl : length (nth (i mod R) (full_mat pssm s) []) = C).
+    { unfold full_mat. fold R.
+      rewrite (map_nth_in _ _ _ 0) by (rewrite seq_length; auto).
+      rewrite map_length, seq_length. reflexivity. }
+    assert (En : nth_error (nth (i mod R) (full_mat pssm s) []) (i / R) = None).
+    { apply nth_error_None. lia. }
+    rewrite En. reflexivity.
+  Qed.
+
   Lemma unstripe_full pssm s :
     0 < C -> 1 <= length pssm ->
     sc_unstripe C (mkScores (full_mat pssm s) (length s + 1 - length pssm)) =
@@ -548,6 +567,19 @@ Section Generic.
     repeat split; auto.
     - intros r Hr. apply Hrow; auto.
     - intros r c Hr Hc. apply Hrow; auto.
+  Qed.
+
+  (* the hypothesis [Striped] is satisfiable for every sequence and every wrap *)
+  Lemma stripe_of_striped s w : Striped s (stripe_of C N s w).
+  Proof.
+    unfold ScoreModel.Striped, stripe_of. cbn [sq_len sq_wrap sq_mat].
+    rewrite map_length, seq_length. repeat split; auto.
+    - intros r Hr. rewrite (map_nth_in _ _ _ 0) by (rewrite seq_length; auto).
+      rewrite map_length, seq_length. reflexivity.
+    - intros r c Hr Hc. rewrite (map_nth_in _ _ _ 0) by (rewrite seq_length; auto).
+      rewrite seq_nth by auto. cbn [Nat.add].
+      rewrite (map_nth_in _ _ _ 0) by (rewrite seq_length; auto).
+      rewrite seq_nth by auto. reflexivity.
   Qed.
 
 End Generic.
